@@ -118,9 +118,9 @@ Proof.
   { intros b r0 n0 r n Hg H0 Hin. destruct b; simpl in Hin; [|contradiction].
     destruct Hin as [E|[]]. inversion E; subst. congruence. }
   apply stmt_mutind.
-  - (* SExpr *) intros e c r n Hg. simpl. split; [intro H; exfalso; exact (NE _ _ _ _ Hg H)|].
+  - (* SExpr *) intros e c r n Hg. simpl v_stmt. simpl while_sites. simpl control_sites. split; [intro H; exfalso; exact (NE _ _ _ _ Hg H)|].
     intros [[_ [_ []]]|[_ [_ [_ []]]]].
-  - (* SBranch *) intros n0 c r n Hg. simpl. split; [intro H; exfalso; exact (GW _ _ _ _ _ Hg eq_refl H)|].
+  - (* SBranch *) intros n0 c r n Hg. simpl v_stmt. simpl while_sites. simpl control_sites. split; [intro H; exfalso; exact (GW _ _ _ _ _ Hg eq_refl H)|].
     intros [[_ [_ []]]|[_ [_ [_ []]]]].
   - (* SIf *)
     intros n0 cnd t IHt f IHf c r n Hg. simpl v_stmt. simpl while_sites. simpl control_sites.
@@ -142,7 +142,7 @@ Proof.
       * destruct H4 as [E|H4].
         -- inversion E; subst. left. rewrite H2, H3. simpl. left; reflexivity.
         -- apply in_app_or in H4. destruct H4 as [H4|H4]; [right; right; left|right; right; right]; right; auto.
-  - (* SAssign *) intros aug l e c r n Hg. simpl. rewrite in_app_iff.
+  - (* SAssign *) intros aug l e c r n Hg. simpl v_stmt. simpl while_sites. simpl control_sites. rewrite in_app_iff.
     split; [intros [H|H]; exfalso; [exact (NE _ _ _ _ Hg H)|exact (NL _ _ _ _ _ Hg H)]|].
     intros [[_ [_ []]]|[_ [_ [_ []]]]].
   - (* SDef *)
@@ -195,11 +195,11 @@ Proof.
       * destruct H4 as [E|H4].
         -- inversion E; subst. right; left. rewrite H2, H3. simpl. left; reflexivity.
         -- right; right; right. right; auto.
-  - (* SReturn *) intros n0 e c r n Hg. simpl. rewrite in_app_iff.
+  - (* SReturn *) intros n0 e c r n Hg. simpl v_stmt. simpl while_sites. simpl control_sites. rewrite in_app_iff.
     split.
     + intros [H|H]; [exfalso; exact (GW _ _ _ _ _ Hg eq_refl H)|]. destruct e; [exfalso; exact (NE _ _ _ _ Hg H)|contradiction].
     + intros [[_ [_ []]]|[_ [_ [_ []]]]].
-  - (* SLoad *) intros n0 items c r n Hg. simpl. rewrite in_app_iff.
+  - (* SLoad *) intros n0 items c r n Hg. simpl v_stmt. simpl while_sites. simpl control_sites. rewrite in_app_iff.
     split.
     + intros [H|H].
       * destruct (c_fn c); [destruct H as [E|[]]; inversion E; subst; discriminate|].
@@ -208,9 +208,9 @@ Proof.
       * exfalso. induction items as [|[[[fn from] tn] to] items IH]; simpl in H; auto.
         apply in_app_or in H. destruct H as [H|H]; auto. exact (GW _ _ _ _ _ Hg eq_refl H).
     + intros [[_ [_ []]]|[_ [_ [_ []]]]].
-  - (* SNil *) intros c r n Hg. simpl. split; [contradiction|]. intros [[_ [_ []]]|[_ [_ [_ []]]]].
+  - (* SNil *) intros c r n Hg. simpl v_stmts. simpl whiles_in. simpl controls_in. split; [contradiction|]. intros [[_ [_ []]]|[_ [_ [_ []]]]].
   - (* SCons *)
-    intros s IHs ss IHss c r n Hg. simpl. rewrite !in_app_iff. rewrite (IHs c r n Hg), (IHss c r n Hg).
+    intros s IHs ss IHss c r n Hg. simpl v_stmts. simpl whiles_in. simpl controls_in. rewrite !in_app_iff. rewrite (IHs c r n Hg), (IHss c r n Hg).
     split.
     + intros [[[H1 [H2 H3]]|[H1 [H2 [H3 H4]]]]|[[H1 [H2 H3]]|[H1 [H2 [H3 H4]]]]]; [left|right|left|right]; repeat split; auto.
     + intros [[H1 [H2 [H3|H3]]]|[H1 [H2 [H3 [H4|H4]]]]]; [left; left|right; left|left; right|right; right]; repeat split; auto.
